@@ -28,7 +28,8 @@ CFG = dict(
                "returns the device's own session or nothing (and finds every registered device); Remove forgets; the same for the proxy tables; with Channels, over all "
                "histories of Channel packets with any tag list (the empty one included) a session is routed only into the Channel of a host whose LAST tag list names it, "
                "and a queued packet lands in its device's own queue or in that host's queue; a proxied client's packet forwarded by its proxy host, whole or cut into "
-               "fragments by Session.write, names the client in every piece and is handled only in the client's session. Registration itself is proved "
+               "fragments by Session.write, names the client in every piece and is handled only in the client's session; conn.process / receive for every combination "
+               "of FlagMulti, FlagMultiDevice, FlagFrag, FlagProxy, count, device and body fire a handler only in the session of the device handled. Registration itself is proved "
                "under hash-injectivity and refuted without it with a real colliding pair (constant checked by vm_compute and against ID.Hash on every run). The code as it "
                "was before the four fix: commits is the chk=false instance of the same definitions; its misbehaviour is stated as C15_old_code_refuted. "
                "The model is tied to /repo by generated histories run through the real functions and through the model inside Coq.",
